@@ -16,6 +16,8 @@ def observe(spec, inputs):
     out = {"error": None}
     try:
         P = _poly(n, spec, inputs)
+        if spec.get("warm"):
+            C.nd_warm(P)
         if spec["part"] == "rows":
             out["rr"] = [int(v) for v in P.reducable_rows()]
         elif spec["part"] == "cols":
